@@ -188,6 +188,36 @@ func c13R1b(c *Ctx) {
 		{"not-handshaking", []assumption{status(false)}, false},
 		{"in-band-while-tunnel-in-use", []assumption{status(true), tunnel(false), conn(true)}, false},
 	} {
+		// universal forms per case: when the case parks, no exit avoids the enqueue and every exit answers "parked";
+		// when it does not park, every exit answers "not parked" (the caller forwards exactly when told so)
+		{
+			no := contradicts(w.as)
+			isAdd := func(in ssa.Instruction) bool { return in == adds[0].(ssa.Instruction) }
+			if w.park {
+				hitA, pathA := reachFromE(f.Blocks[0], 0, isReturn, c.orWrapper("park-enqueue", isAdd), no)
+				c.check(hitA == nil, "addHandshakeBuffer/always-enqueued@"+w.name, c.pos(f.Pos()), "in this case every exit has enqueued the chunk", "in a case that must park, the function can return without enqueuing the chunk (the caller is told 'parked' or forwards it past the parked ones)", c.pathStr(pathA)...)
+			}
+			reach := map[*ssa.BasicBlock]bool{f.Blocks[0]: true}
+			work := []*ssa.BasicBlock{f.Blocks[0]}
+			for len(work) > 0 {
+				b := work[0]
+				work = work[1:]
+				for _, sx := range b.Succs {
+					if !no(b, sx) && !reach[sx] {
+						reach[sx] = true
+						work = append(work, sx)
+					}
+				}
+			}
+			eachInstr(f, func(in ssa.Instruction) {
+				r, ok := in.(*ssa.Return)
+				if !ok || !reach[in.Block()] || in.Block().Comment == "recover" || len(r.Results) < 2 {
+					return
+				}
+				b, isC := constBool(retVal(r, 1))
+				c.check(isC && b == w.park, "addHandshakeBuffer/answer@"+w.name, c.ipos(in), "the answer given to the pump matches what was done with the chunk", "the answer given to the pump in this case does not match what must be done with the chunk: it is parked and forwarded, or neither")
+			})
+		}
 		got := blocksUnder(f, w.as)[adds[0].Block()]
 		c.check(got == w.park, "addHandshakeBuffer/decision@"+w.name, c.ipos(adds[0]), "this case is parked / not parked as the hand-over requires", "the parking decision is wrong for '"+w.name+"' (a chunk that must wait overtakes the parked ones, or a chunk that must pass is held)")
 	}
